@@ -140,6 +140,7 @@ func (p pipeSc) scenario() *sched.Scenario {
 			}
 		}
 		finish := func(e *vsched.Execution) sched.Outcome {
+			streams.DefaultMaxBufferSize = prodMax // never leak the tiny limit into later scenarios
 			if s != nil && !e.Deadlock && !e.Livelock {
 				o.w, o.r = s.Stats()
 			}
@@ -255,6 +256,11 @@ func matchInterleaving(writers [][]string, got string) bool {
 		return false
 	}
 	return match(0)
+}
+
+// RaceScenarios: object-level drivers re-used by C32 under the race detector.
+func RaceScenarios() []*sched.Scenario {
+	return append(c01Scenarios(true), c02Scenarios(true)...)
 }
 
 func c01Scenarios(quick bool) []*sched.Scenario {
